@@ -463,7 +463,7 @@ func vH_C09_append() {
 			vAssert("mutation-wrote", vAnd(len(f.writes) == 0, len(f.truncs) == 0))
 		case 2:
 			vTrace("Flush")
-			vAssert("flush-ok", s.Flush() == nil)
+			vFlushMaybeFaulty(s, f)
 			for _, w := range f.writes {
 				vAssert("flush-write-below-durable-root", w.off >= durable)
 			}
@@ -518,7 +518,7 @@ func vH_C14_fmt() {
 		vCover("copied")
 	} else {
 		vTrace("Flush")
-		vAssert("flush-ok", pre.s.Flush() == nil)
+		vFlushMaybeFaulty(pre.s, pre.f)
 		f := pre.f
 		dec := vDecode(f.data, int64(len(f.data)))
 		vCheckDecoded("flushed", dec, []string{cfg.name}, []*vModel{pre.m})
@@ -573,4 +573,30 @@ func vH_C19_race() {
 		vCover("preempted")
 	}
 	vCover("done")
+}
+
+// vFlushMaybeFaulty: Flush with, optionally, one transient failure of the k-th
+// file call; an error must be followed by a successful retry.  Returns after a
+// Flush that returned nil.
+func vFlushMaybeFaulty(s *Store, f *vFile) {
+	if vParam("flushfault") == 1 {
+		if k := vChoose("flush-fail-at", 0, vParam("maxfail")); k > 0 {
+			f.failAt = k
+			if vChoose("torn", 0, 1) == 1 {
+				f.torn = true
+				f.tornLen = vInt("torn-len")
+				vAssume(f.tornLen >= 0)
+				vAssume(f.tornLen <= 64)
+			}
+			err := s.Flush()
+			f.failAt, f.torn = 0, false
+			if err != nil {
+				vTrace("Flush failed, retried")
+				vAssert("retried-flush-ok", s.Flush() == nil)
+				vCover("flush-retried")
+			}
+			return
+		}
+	}
+	vAssert("flush-ok", s.Flush() == nil)
 }
